@@ -76,6 +76,8 @@ func main() {
 		{"seeded", func() { seededCases(r, m) }},
 		{"onechar", func() { oneCharPatternCase(r) }},
 		{"geo", func() { geoCampaign(o, r, m) }},
+		{"rx", func() { rxCampaign(o, r, m) }},
+		{"yaml", func() { yamlCampaign(o, r, m) }},
 		{"wire", func() { wireCampaign(o, r, m) }},
 	} {
 		if on(cp.name) {
@@ -111,7 +113,7 @@ type rule struct {
 }
 
 var typeNames = map[uint16]string{dns.TypeA: "A", dns.TypeNS: "NS", dns.TypeTXT: "TXT", dns.TypeAAAA: "AAAA", dns.TypeHTTPS: "HTTPS",
-	dns.TypeMX: "MX"}
+	dns.TypeMX: "MX", dns.TypeCAA: "CAA"}
 
 // domRule is ||dom^ ; anyRule is *$dnstype=T.
 func domRule(dom string) rule { return rule{kind: 'n', anchor: 'd', body: dom + "^"} }
@@ -816,10 +818,12 @@ var v4pool = []string{"10.0.0.0/8", "10.1.0.0/16", "10.1.2.0/24", "10.1.2.128/25
 	"10.1.2.77/24", "128.0.0.0/1", "10.1.3.0/24", "10.1.2.0/23"}
 var v6pool = []string{"2001:db8::/32", "2001:db8:1::/48", "2001:db8:1::1/128", "2001:db8::/33", "fe80::/10",
 	"2001:db8:1:0:8000::/65", "2001:db8:1::5/64", "::ffff:10.1.2.0/120", "2001:db8:1::/127"}
-var asnPool = []geoip.ASN{0, 1, 42, 64512, 4294967295}
+// (65578 = 42 + 2^16 and 4294967338 does not exist: ASNs that differ only above bit 16 must stay different.)
+var asnPool = []geoip.ASN{0, 1, 42, 64512, 4294967295, 65578, 65536}
 var labelPool = []string{"a", "b", "ab", "test", "blk", "x-y", "www", "a1", "z", "az9"}
-var qtypePool = []uint16{dns.TypeA, dns.TypeAAAA, dns.TypeNS, dns.TypeTXT, dns.TypeHTTPS, dns.TypeANY, dns.TypeMX}
-var ruleTypes = []uint16{dns.TypeA, dns.TypeAAAA, dns.TypeNS, dns.TypeTXT, dns.TypeHTTPS}
+// (CAA = 257 = 256 + A and the private-use type 65280 = 255 << 8: types that differ from a rule's type only above bit 8.)
+var qtypePool = []uint16{dns.TypeA, dns.TypeAAAA, dns.TypeNS, dns.TypeTXT, dns.TypeHTTPS, dns.TypeANY, dns.TypeMX, dns.TypeCAA, 65280}
+var ruleTypes = []uint16{dns.TypeA, dns.TypeAAAA, dns.TypeNS, dns.TypeTXT, dns.TypeHTTPS, dns.TypeCAA}
 
 func genPrefix(rng *rand.Rand) netip.Prefix {
 	switch x := rng.IntN(20); {
@@ -1635,7 +1639,21 @@ func runMwCase(r *hlib.Result, m *hlib.Model, campaign string, c *cfg, qs []*req
 	var got []string
 	nBlocked, nServed := 0, 0
 	for j, q := range qs {
-		ob := f.serve(ctx, q)
+		// The request context may already be cancelled or past its deadline when the handler runs (a client
+		// that went away, a slow queue): the access decision and the silence of a rejected request must not
+		// depend on it.  (Derived from the request, not from a random stream: replays stay exact.)
+		rctx, cancel := ctx, context.CancelFunc(func() {})
+		switch (int(q.remote.Port()) + len(q.qname) + j) % 7 {
+		case 0:
+			rctx, cancel = context.WithCancel(ctx)
+			cancel()
+			r.Count(campaign + ".fault.ctx-cancelled")
+		case 1:
+			rctx, cancel = context.WithDeadline(ctx, time.Unix(1, 0))
+			r.Count(campaign + ".fault.ctx-deadline")
+		}
+		ob := f.serve(rctx, q)
+		cancel()
 		lines = append(lines, q.line())
 		got = append(got, ob.canon())
 		// A later stage also means the rate limiter, which only applies to plain DNS.
